@@ -74,7 +74,8 @@ def _get_const_repr(const_node):
                 # nan/inf have no Python literal: no compact representation
                 return None
             return str(array[0])
-        if rank == 1 and tensor_proto.dims[0] < 5:
+        # (An empty list literal carries no element type: the converter cannot type it.)
+        if rank == 1 and 0 < tensor_proto.dims[0] < 5:
             nparray = onnx.numpy_helper.to_array(tensor_proto)  # noqa: TID251
             if not np.all(np.isfinite(nparray)):
                 return None
